@@ -66,7 +66,11 @@ func (d *Date) MarshalJSON() ([]byte, error) {
 // UnmarshalJSON implements the json.Unmarshaler interface. The time must be a
 // quoted string in the RFC 3339 format.
 func (d *Date) UnmarshalJSON(data []byte) error {
-	tim, err := time.Parse(dateFormat, string(data[1:len(data)-1]))
+	str, err := unquoteJSON(data)
+	if err != nil {
+		return err
+	}
+	tim, err := time.Parse(dateFormat, string(str))
 	if err != nil {
 		return fmt.Errorf("%w: Cannot parse %s as %q", ErrSQLType, data, dateFormat)
 	}
